@@ -245,7 +245,7 @@ package varmq
 // pending. Every dispatch decision re-reads status, in-flight count, limit and backlog (nothing is cached across a dispatch), errors are
 // reported without blocking and do not end the loop; the goroutine returns only when its signal channel is closed.
 //@ func worker.goEventLoop$1
-//@   props C02 C03 C09 C11 C12 C06
+//@   props C02 C03 C09 C11 C12 C06 C01
 //@   requires signal != nil && $deref(w) != nil && PoolOK($deref(w)) && QM($deref(w)) && ChanOK($deref(w).errorChan) && $deref(w).waiters != nil
 //@   requires forall i int :: 0 <= i && i < len($deref(w).queues.Manager.items) ==> $deref(w).queues.Manager.items[i] != nil
 //@   modifies $chan(signal), $open(signal), $chan($deref(w).errorChan), $deref(w).queues.Manager.roundRobinIndex, $lenOf, $deq, $deref(w).curProcessing, $jstatus, $jackid, $jqueue, $alloc,
